@@ -78,7 +78,11 @@ fn next_backup_num(file: &Path) -> Result<u64> {
         .filter_map(|de| is_num_backup(fname, &de.path()))
         .max()
         .unwrap_or(0);
-    Ok(current + 1)
+    // The largest number a name can carry has no successor: fail
+    // rather than wrap around to `~0~`, which may exist (the
+    // rename would replace it).
+    current.checked_add(1)
+        .ok_or_else(|| XcpError::InvalidDestination("Backup number overflow.").into())
 }
 
 fn is_num_backup<S: AsRef<OsStr>>(base_file: S, candidate: &Path) -> Option<u64> {
